@@ -174,3 +174,15 @@ Fixpoint h_run (st : hstate) (ops : list hop) : hstate :=
   | [] => st
   | op :: r => h_run (fst (h_step st op)) r
   end.
+
+(** * 3. clean-up paths: digest strings taken from STORED manifests (deleteUnusedLayers, Layer.Remove, PruneLayers)
+    every one of them turns a digest into a file name through GetBlobsPath and removes nothing otherwise *)
+Definition cleanup_targets (root : str) (ds : list str) : list str :=
+  flat_map (fun d => match get_blobs_path root d with Ok p => [p] | _ => [] end) ds.
+Definition referenced (refs : list str) (d : str) : bool := existsb (eqb_str d) refs.
+(** Layer.Remove: nothing for the empty digest or a digest some manifest still uses *)
+Definition layer_remove_targets (root : str) (refs : list str) (d : str) : list str :=
+  if nonempty d && negb (referenced refs d) then cleanup_targets root [d] else [].
+(** deleteUnusedLayers(deleteMap) *)
+Definition delete_unused_targets (root : str) (refs dm : list str) : list str :=
+  cleanup_targets root (filter (fun k => negb (referenced refs k)) dm).
